@@ -496,10 +496,8 @@ impl TryFrom<Option<&SubtypeElements>> for PerVisibleRangeConstraints {
                     Self::default()
                 })
             }
-            x => {
-                eprintln!("{x:?}");
-                unreachable!()
-            }
+            // an element that is not PER-visible contributes no range
+            _ => Ok(Self::default()),
         }
     }
 }
